@@ -320,7 +320,7 @@ class Rig:
             res = (False, "EXC %s: %s" % (type(e).__name__, e))
         if pump:
             self.pump()
-        await self.settle()
+        await self.settle(pump=pump)
         return res
 
     async def query(self, filters):
